@@ -365,8 +365,11 @@ def gen_rep(rng, multi):
     come back by state / action index"""
     fz = ["int0", "float0", "empty_str", "empty_tuple", "false"]
     return {
-        "labels": rng.choice(["int", "int", "perm", "str", "tuple", "falsy:" + rng.choice(fz)]),
-        "alabels": rng.choice(["int", "int", "str", "falsy:" + rng.choice(fz)]),
+        # none:<j> = the state / action with index j (mod size) carries the label None itself (seeded C03-21): unlike the
+        # falsy labels it is also indistinguishable from "no entry" for dict.get / `is not None` tests
+        "labels": rng.choice(["int", "int", "perm", "str", "tuple", "falsy:" + rng.choice(fz), "none:%d" % rng.randrange(6)]),
+        "alabels": rng.choice(["int", "int", "str", "falsy:" + rng.choice(fz), "none:%d" % rng.randrange(3),
+                               "none:%d" % rng.randrange(3)]),
         "dist": rng.choice(["dict", "mixed"]),
         "actions_as": rng.choice(["tuple", "list"]),
         # from_matrices = the public array constructor TabularMarkovDecisionProcess.from_matrices (seeded C03-17)
@@ -1047,7 +1050,7 @@ def terms_for(case, res):
         abs_anc_other += any(m["actions"][s] != m["actions"][x] for s in za for x in xs)
         multi_switch += sum(1 for s, nd in prev.items() if nd[3] and s in nodes and nodes[s][2] != nd[2]) >= 2
         prev = nodes
-    info = {"abs_anc": abs_anc, "abs_anc_other": abs_anc_other, "multi_switch": multi_switch,"nC": len(C), "nExplored": sum(ex), "n": n, "steps": len(steps),
+    info = {"acts_on_C": sorted({pol[s] for s in C if not masked[s]}), "abs_anc": abs_anc, "abs_anc_other": abs_anc_other, "multi_switch": multi_switch,"nC": len(C), "nExplored": sum(ex), "n": n, "steps": len(steps),
             "undiscounted": g == 1, "t_pchk": t_pchk,
             "pruned": sum(ex) < len(gen_mdp.reachable(case["mdp"])),
             "sol_eq_C": set(res["solution_states"]) == C}
@@ -1136,6 +1139,11 @@ def run(ctx):
             f["heuristic_form_" + str(rk.get("h_type"))] = True
             for key in ("labels", "alabels", "dist", "actions_as", "cls", "init_as", "absorbing_as"):
                 f["rep_%s_%s" % (key, rp.get(key))] = True
+            al_ = str(rp.get("alabels"))
+            f["rep_action_labelled_None"] = al_.startswith("none:")
+            f["rep_action_labelled_None_played_on_a_reached_state"] = (al_.startswith("none:") and
+                int(al_.split(":")[1]) % cv["mdp"]["nA"] in info["acts_on_C"])
+            f["rep_state_labelled_None"] = str(rp.get("labels")).startswith("none:")
             f["rep_gamma_int_1"] = bool(rp.get("gamma_int")) and F(cv["mdp"]["gamma"]) == 1
             f["rep_mdp_object_reused"] = bool(rp.get("mdp_reuse")) and k == 2
             f["rep_cached_views_touched"] = bool(rp.get("touch")) and rp.get("cls") != "quick"
